@@ -23,6 +23,8 @@ class Opd:
         self.kind, self.ty, self.n, self.lit, self.wrap, self.xform = kind, ty, n, lit, wrap, xform
 
     def size(self):
+        if self.kind == "typed" and self.xform in ("widen", "plus1"):
+            return self.n + 8
         return {"typed": self.n, "untyped": self.n, "reg": 4, "lit": 0, "sub": 16}[self.kind]
 
 
@@ -76,6 +78,11 @@ class Rule:
                 elif o.xform == "swap":
                     h = o.n // 2
                     parts.append("%s[%d:0] @ %s[%d:%d]" % (name, h - 1, name, o.n - 1, h))
+                elif o.xform == "widen":
+                    # the value, not its bit pattern, is what the production sees: a negative argument is sign-extended
+                    parts.append("%s`%d" % (name, o.n + 8))
+                elif o.xform == "plus1":
+                    parts.append("(%s + 1)`%d" % (name, o.n + 8))
                 elif isinstance(o.xform, tuple):
                     parts.append("(%s + %s)`%d" % (name, o.xform[1], o.n))
                 else:
@@ -109,6 +116,10 @@ def encode(rule, vals, addr=None):
             if isinstance(o.xform, tuple):
                 v = v + (addr or {}).get(o.xform[1], 0)
             b = tc(v, o.n)
+            if o.xform == "widen":
+                b = tc(v, o.n + 8)
+            elif o.xform == "plus1":
+                b = tc(v + 1, o.n + 8)
             if o.xform == "le":
                 b = "".join(reversed([b[i:i + 8] for i in range(0, len(b), 8)]))
             elif o.xform == "swap":
@@ -143,6 +154,8 @@ def gen_rules(rng, families=False, prodref=False, subs=False):
                 x = None
                 if nn % 16 == 0 and rng.random() < 0.4:
                     x = rng.choice(["le", "swap"])
+                elif rng.random() < 0.15:
+                    x = rng.choice(["widen", "plus1"])
                 opds.append(Opd("typed", rng.choice("usi"), nn, wrap=wrap, xform=x))
             elif subs and k < 0.62 and opds and opds[-1].kind in ("typed", "untyped"):
                 # an operand that is itself a sub-rule taking an expression (`#expr` / `[expr]`), to the right of a
@@ -313,7 +326,10 @@ def gen_prog(rng, faults=True, banks=None, families=False, prodref=False, subs=F
         elif r < 0.8:
             p.items.append(["res", rng.randrange(0, 5)])
         elif r < 0.85:
-            p.items.append(["align", rng.choice([16, 32, 64])])
+            if rng.random() < 0.4:
+                # a position that is not a whole address unit (after #d1..#d7), brought back by #align
+                p.items.append(["data", rng.choice([1, 2, 3, 4, 4, 5, 7]), None, rng.choice([1, 1, 3])])
+            p.items.append(["align", rng.choice([8, 16, 32, 64])])
         elif r < 0.93 and cur_glob is None:
             name = "K%d" % len(consts)
             consts.append(name)
@@ -554,7 +570,8 @@ def render(p, rng=None, case=None, blanks=None, comment=None, rule_order=None, b
         elif k == "rawinstr":
             out.append("    " + it[1])
         elif k == "data":
-            out.append("    #d%d %s" % (it[1], ", ".join(render_value(s, lm, rng) for s, _ in it[2])))
+            # (a hex literal carries a size of four bits per digit: wider than a sub-nibble directive)
+            out.append("    #d%d %s" % (it[1], ", ".join(render_value(s, lm, rng if it[1] % 4 == 0 else None) for s, _ in it[2])))
         elif k == "res":
             out.append("    #res %d" % it[1])
         elif k == "align":
